@@ -99,6 +99,7 @@ ROLES_T = ("low", "near", "mid", "high")
 # to 1 for these materials and G has no effect at all; 5, 20 give n_bm = 1.04, 1.37 (Steel, R_m = 500).
 G_OF_ROLE = {"low": 0.1, "near": 5.0, "mid": 20.0, "high": 2.0}
 G_BY_POSITION = (0.1, 20.0, 5.0)                            # ... for batches of points with equal loads
+HUGE = 4.5                                                  # load ratio of a point far above the others (250 MPa -> 1125 MPa)
 NODE_LABELS = (9, 5, 8, 2)                                  # node ids of a batch: neither ascending nor descending
 G_LABELS = (8, 5, 9, 3)                                     # index labels of the G series (arbitrary by contract; deliberately not ascending)
 
@@ -180,6 +181,7 @@ def bounds(tier):
                   "G": ["uniform", "per-point %r" % (G_OF_ROLE,)],
                   "selections": "all orders up to size %d, rotations above, plus (1,1) and (1,1,1)" % (2 if q else 3),
                   "n_selections": len(_selections(ROLES_Q if q else ROLES_T, tier))},
+        "batch-with-a-far-higher-loaded-point": "ratios (1, %g), (%g, 1), (near, %g) for every template" % (HUGE, HUGE, HUGE),
         "batch-node-ids": "every selection of >= 2 different ratios again with node ids %r" % (NODE_LABELS,),
         "batch-after": "every such selection again after a batch of other ratios with the same largest one, in one process",
         "batch-enumerated": {"levels": ENUM_LEVELS, "lengths": [4] if q else [4, 5],
@@ -633,6 +635,12 @@ def shards(tier):
                     cases.append(dict(base, after={"ratios": [_ratio(t, r) for r in o]}))
             for i in range(0, len(cases), 8):
                 out.append(cases[i:i + 8])
+    # a co-assessed point loaded far beyond the others (pseudo-elastic maximum above 1000 MPa)
+    for ps, ts in plan["batch"]:
+        cases = [{"kind": "batch", "template": t, "params": ps, "gmode": "uniform", "ratios": r}
+                 for t in ts for r in ([1.0, HUGE], [HUGE, 1.0], [_ratio(t, "near"), HUGE])]
+        for i in range(0, len(cases), 6):
+            out.append(cases[i:i + 6])
     # enumerated short sequences
     for n in ((4,) if q else (4, 5)):
         cases = [{"kind": "batch", "loads": z, "params": "steel-normal", "gmode": "uniform", "ratios": list(r)}
